@@ -573,6 +573,124 @@ class StmtMixin:
             inited.add(fname)
         return lines
 
+    def lower_slice(self, fname, sname, from_var, until_kind, until_name):
+        """A contiguous statement range of a (large) function, lowered as a function of its own: <function>__slice_<name>.
+        The range starts at the declaration of `from_var` and ends before the first later statement of the same block that
+        refers to a variable / member / function named `until_name` (until_ref), or with the declaration of `until_name`
+        (until_decl).  Every variable of the enclosing function that the range uses becomes a pointer parameter (in order of first
+        use), `this` becomes `self`; the value of `from_var` (until_ref) or `until_name` (until_decl) at the end is returned.
+        Must-fire: exactly one such declaration and an end statement must exist."""
+        from cxx2c import mangle
+        cids = self.find_fn(fname, want_body=True)
+        if len(cids) != 1:
+            raise LoweringError(f'@slice {fname}: {len(cids)} definitions')
+        cid = cids[0]
+        fdecl = self.defnodes[cid]
+        found = []
+
+        def declares(stmt, var):
+            return stmt.get('kind') == 'DeclStmt' and any(d.get('kind') == 'VarDecl' and d.get('name') == var for d in stmt.get('inner', []))
+
+        def refers(n, name):
+            if n.get('kind') == 'DeclRefExpr' and n.get('referencedDecl', {}).get('name') == name:
+                return True
+            if n.get('kind') == 'MemberExpr' and n.get('name') == name:
+                return True
+            return any(refers(c, name) for c in n.get('inner', []))
+
+        def walk(n):
+            if n.get('kind') == 'CompoundStmt':
+                kids = n.get('inner', [])
+                for i, c in enumerate(kids):
+                    if declares(c, from_var):
+                        found.append((kids, i))
+            for c in n.get('inner', []):
+                walk(c)
+        walk(body(fdecl))
+        if len(found) != 1:
+            raise LoweringError(f'@slice {fname} {sname}: {len(found)} declarations of {from_var} (renamed or removed?)')
+        kids, start = found[0]
+        end = None
+        for j in range(start + 1, len(kids)):
+            if until_kind == 'until_ref' and refers(kids[j], until_name):
+                end = j
+                break
+            if until_kind == 'until_decl' and declares(kids[j], until_name):
+                end = j + 1
+                break
+        if until_kind == 'until_decl' and from_var == until_name:
+            end = start + 1
+        if end is None:
+            raise LoweringError(f'@slice {fname} {sname}: no statement after the declaration of {from_var} matches {until_kind} {until_name}')
+        stmts = kids[start:end]
+        declared, free, uses_this = set(), [], [False]
+
+        def scan(n):
+            if n.get('kind') in ('VarDecl', 'BindingDecl', 'ParmVarDecl') and n.get('id'):
+                declared.add(n['id'])
+            if n.get('kind') == 'CXXThisExpr':
+                uses_this[0] = True
+            if n.get('kind') == 'DeclRefExpr':
+                rd = n.get('referencedDecl', {})
+                if rd.get('kind') in ('VarDecl', 'ParmVarDecl', 'BindingDecl') and rd.get('id') in self.ix.by_id \
+                        and rd['id'] not in declared and rd['id'] not in [f[0] for f in free] and self.inside(fdecl, rd['id']):
+                    free.append((rd['id'], self.ix.by_id[rd['id']]))
+            for c in n.get('inner', []):
+                scan(c)
+        for st in stmts:
+            scan(st)
+        ret_name = from_var if until_kind == 'until_ref' else until_name
+        ret_node = None
+        for st in stmts:
+            for d in st.get('inner', []) if st.get('kind') == 'DeclStmt' else []:
+                if d.get('kind') == 'VarDecl' and d.get('name') == ret_name:
+                    ret_node = d
+        if ret_node is None:
+            raise LoweringError(f'@slice {fname} {sname}: the returned variable {ret_name} is not declared inside the range')
+        rett = self.tyof(ret_node).strip_ref()
+        cname = f'{mangle(self.ix.qname.get(cid) or fname)}__slice_{sname}'
+        spec = self.spec.fn.get(cname)
+        if spec:
+            self.spec_used.add(cname)
+        contract = [l for l in spec['contract'] if l.strip()] if spec else []
+        info = {'name': cname, 'qname': cname, 'ret': rett, 'loops': 0, 'locals': {}, 'try': [], 'names': set(['self']), 'calls': set(),
+                'maythrow': False, 'throws': set(), 'spec': spec, 'loops_with_contract': [], 'lambdas': {}, 'has_body': True,
+                'contract': bool(contract), 'line': stmts[0].get('range', {}).get('begin', {}).get('line'), 'captures': {}}
+        ps = []
+        if uses_this[0]:
+            ps.append(f'{self.record(self.class_of(cid))} *self')
+        for vid, vnode in free:
+            vt = self.tyof(vnode).strip_ref()
+            pname = vnode.get('name') or f'__v{len(ps)}'
+            ps.append(f'{self.ctype(vt)} *{pname}' if vt.kind != 'carr' else f'{self.ctype(vt.sub)} *{pname}')
+            info['locals'][vid] = (pname, vt.kind != 'carr')
+            info['names'].add(pname)
+        sig = f'{self.ctype(rett)} {cname}({", ".join(ps) or "void"})'
+        saved = (self.cur, self.pre, self.cond_depth)
+        self.cur, self.pre, self.cond_depth = info, [], 0
+        lines = []
+        for st in stmts:
+            lines += self.st(st, '  ')
+        rl = info['locals'].get(ret_node['id'])
+        lines.append(f'  return {rl[0] if rl else ret_name};')
+        self.cur, self.pre, self.cond_depth = saved
+        self.fninfo[cname] = info
+        self.protos.append(sig + ';')
+        text = sig + '\n' + ('\n'.join(contract) + '\n' if contract else '') + '{\n' + '\n'.join(lines) + '\n}\n'
+        text += contract_macros(cname, contract)
+        self.bodies.append((cname, text))
+        self.stats['functions'] += 1
+        if info['maythrow']:
+            self.maythrow.add(cname)
+
+    def inside(self, fdecl, vid):
+        """is the declaration with id vid located inside function fdecl (parameter or local)?"""
+        def has(n):
+            if n.get('id') == vid and n.get('kind', '').endswith('Decl'):
+                return True
+            return any(has(c) for c in n.get('inner', []))
+        return has(fdecl)
+
     def fn_spec(self, cid):
         q = self.ix.qname[cid]
         for name, sp in self.spec.fn.items():
